@@ -287,6 +287,9 @@ def d3(cx: Cx, ob: Ob) -> None:
                         ob.violate(fn.qualname, where(fn, line), f"with {world} add_record does not append the new record (outcome: {got})", detail="append-guard")
                     else:
                         ob.violate(fn.qualname, where(fn, line), f"with {world} add_record does not merge into the existing record (outcome: {got})", detail="merge-guard")
+    from ..rules import positional_shim_check
+
+    positional_shim_check(cx, ob, fn)
     # add_prefix
     ap = cx.fn(f"{CONV}.add_prefix", ob.id)
     sp = cx.summary(ap, ob.id)
